@@ -41,9 +41,12 @@ import (
 	"net/http"
 	"net/http/httptest"
 	"os"
+	"runtime"
+	"runtime/debug"
 	"sort"
 	"strings"
 	"sync"
+	"sync/atomic"
 	"testing"
 	"testing/synctest"
 	"time"
@@ -61,7 +64,18 @@ type cfg struct {
 	// attached: start from the reachable state "one session replicated, stream
 	// attached, everything delivered" (prefix Add(1) FullSync Attach BroadcastOne Deliver)
 	attached bool
+	// loop: the standby runs its REAL standbyLoop (Start()) on the bubble's virtual
+	// clock: it full-syncs, opens the stream, waits out its reconnect back-off and
+	// honours its timers by itself. The harness only ends streams, lets frames
+	// through, advances time, and may hold a full-sync RESPONSE back in the
+	// transport. Starts with one session already on the active.
+	loop bool
 }
+
+const (
+	loopFullSyncInterval = 60 * time.Second
+	loopReconnect        = 40 * time.Second // > the largest back-off (30s + 20% jitter)
+)
 
 var attachedPrefix = []string{"Add(1)", "FullSync", "Attach", "BroadcastOne", "Deliver"}
 
@@ -142,10 +156,13 @@ func frameData(frame []byte) []byte {
 
 // memTransport carries the standby's requests to the active's real handlers.
 type memTransport struct {
-	h        http.Handler
-	failNext bool
-	lastBody []byte // body of the last /ha/sessions reply the active served
-	onStream func(req *http.Request) (*http.Response, error)
+	h         http.Handler
+	failNext  bool
+	lastBody  []byte // body of the last /ha/sessions reply the active served
+	onStream  func(req *http.Request) (*http.Response, error)
+	fullSyncs int           // full-sync requests served so far
+	holdNext  bool          // hold the next full-sync response back after the active has produced it
+	held      chan struct{} // non-nil while a response is being held; closing it lets the response through
 }
 
 // stream is one generation of the SSE connection.
@@ -173,6 +190,14 @@ func (t *memTransport) RoundTrip(req *http.Request) (*http.Response, error) {
 	t.h.ServeHTTP(rec, req)
 	if req.URL.Path == "/ha/sessions" {
 		t.lastBody = append([]byte(nil), rec.Body.Bytes()...)
+		t.fullSyncs++
+		if t.holdNext {
+			t.holdNext = false
+			ch := make(chan struct{})
+			t.held = ch
+			<-ch // the response is on its way; the requester waits
+			t.held = nil
+		}
 	}
 	return rec.Result(), nil
 }
@@ -205,6 +230,10 @@ type sys struct {
 	prevPush  *msgDesc   // the change pushed by the immediately preceding operation (nil if that was not a plain push)
 	attachAt  int        // number of changes pushed before the current stream attached
 	faults    int
+	upserts   int     // updates of an absent session so far
+	ticks     int     // loop mode: full-sync intervals let pass while attached
+	loopNew   *stream // loop mode: a stream the standby's loop opened by itself, not yet adopted by the model
+	seenSyncs int     // loop mode: rt.fullSyncs already accounted for
 
 	viols []explore.Viol
 }
@@ -269,10 +298,30 @@ func newSys(c cfg) *sys {
 	sc := ha.DefaultSyncConfig()
 	sc.NodeID, sc.Role = "bng-standby", ha.RoleStandby
 	sc.Partner = &ha.PartnerInfo{NodeID: "bng-active", Endpoint: "active.invalid:9000"}
+	if c.loop {
+		sc.FullSyncInterval = loopFullSyncInterval
+		sc.RequestTimeout = 24 * time.Hour // http.Client.Timeout also bounds the long-lived stream; keep it out of the explored horizon
+	}
 	s.standby = ha.NewHASyncer(sc, s.sStore, zap.NewNop())
 	s.rt = &memTransport{h: s.active.VerifC13Handler()}
 	s.rt.onStream = s.openStream
 	s.standby.VerifC13SetTransport(s.rt)
+	if c.loop {
+		s.nextVer = 1
+		s.ver[sid(1)] = 1
+		s.aStore.PutSession(session(1, 1)) // a session that exists when the standby first connects
+		startMu.Lock()
+		err := s.standby.Start()
+		startMu.Unlock()
+		if err != nil {
+			panic(err)
+		}
+		synctest.Wait()
+		s.adopt()
+		if s.phase != phAttached || s.sStore.GetSessionCount() != 1 {
+			panic("harness: the standby's loop did not sync and attach by itself")
+		}
+	}
 	if c.attached {
 		for _, op := range attachedPrefix {
 			s.Apply(op)
@@ -312,6 +361,11 @@ func (s *sys) release(frame []byte) {
 // fed frame by frame by Deliver.
 func (s *sys) openStream(req *http.Request) (*http.Response, error) {
 	st := s.attaching
+	if st == nil && s.c.loop {
+		s.conn++
+		st = &stream{gen: s.conn}
+		s.loopNew = st
+	}
 	if st == nil {
 		return nil, errors.New("verif: unexpected stream request")
 	}
@@ -330,12 +384,84 @@ func (s *sys) openStream(req *http.Request) (*http.Response, error) {
 		Header: http.Header{"Content-Type": {"text/event-stream"}}, Body: pr, Request: req}, nil
 }
 
+// checkS1: immediately after a completed full sync the standby's table equals the snapshot the active served.
+func (s *sys) checkS1() int {
+	var snap ha.SyncMessage
+	if err := json.Unmarshal(s.rt.lastBody, &snap); err != nil {
+		harnessError("cannot decode served snapshot: %v", err)
+	}
+	want, got := tableOf(snap.Sessions), tableOf(s.sStore.GetAllSessions())
+	if d := diffTables(want, got); d != "" {
+		s.v("S1-fullsync", s.s1Site(want, got), "after a completed full sync the standby's table differs from the snapshot the active served: %s", d)
+	}
+	return len(snap.Sessions)
+}
+
+// adopt (loop mode): account for what the standby's own loop did during the last operation.
+func (s *sys) adopt() {
+	if s.rt.fullSyncs != s.seenSyncs && s.rt.held == nil {
+		s.seenSyncs = s.rt.fullSyncs
+		s.checkS1()
+	}
+	if st := s.loopNew; st != nil {
+		s.loopNew = nil
+		s.cur = st
+		s.attachAt = len(s.msgs)
+		s.phase = phAttached
+		if l := s.undelivered(); len(l) > 0 {
+			var m ha.SyncMessage
+			if json.Unmarshal(frameData(l[0]), &m) == nil && m.Type == ha.SyncTypeHeartbeat {
+				s.release(l[0])
+			}
+		}
+	}
+}
+
+func (s *sys) loopOps() []string {
+	var ops []string
+	for i := 1; i <= s.c.ids; i++ {
+		if s.ver[sid(i)] == 0 {
+			ops = append(ops, fmt.Sprintf("Add(%d)", i))
+			if s.upserts == 0 {
+				ops = append(ops, fmt.Sprintf("Update(%d)", i))
+			}
+		} else {
+			ops = append(ops, fmt.Sprintf("Update(%d)", i), fmt.Sprintf("Delete(%d)", i))
+		}
+	}
+	if len(s.pending) > 0 {
+		ops = append(ops, "BroadcastOne")
+	}
+	if s.phase == phAttached {
+		if len(s.undelivered()) > 0 {
+			ops = append(ops, "Deliver")
+		}
+		ops = append(ops, "Detach", "Break")
+		if s.ticks == 0 && s.rt.held == nil {
+			ops = append(ops, "+interval", "+interval(hold)")
+		}
+	} else {
+		ops = append(ops, "+reconnect")
+	}
+	if s.rt.held != nil {
+		ops = append(ops, "ReleaseFullSync")
+	}
+	return ops
+}
+
 func (s *sys) Ops() []string {
+	if s.c.loop {
+		return s.loopOps()
+	}
 	var ops []string
 	for i := 1; i <= s.c.ids; i++ {
 		var push []string
 		if s.ver[sid(i)] == 0 {
 			push = []string{fmt.Sprintf("Add(%d)", i)}
+			if s.upserts == 0 && (s.c.attached || s.c.loop) { // (not in the widest configuration: keeps the quick tier in budget)
+				// PutSession + PushChange(update) is an upsert on the active: an update may be the first (or the first after a delete) message for an id
+				push = append(push, fmt.Sprintf("Update(%d)", i))
+			}
 		} else {
 			push = []string{fmt.Sprintf("Update(%d)", i), fmt.Sprintf("Delete(%d)", i)}
 		}
@@ -449,6 +575,9 @@ func (s *sys) Apply(op string) string {
 		} else {
 			fmt.Sscanf(op, "Add(%d)", &i)
 		}
+		if typ == ha.SyncTypeUpdate && s.ver[sid(i)] == 0 {
+			s.upserts++
+		}
 		s.nextVer++
 		s.ver[sid(i)] = s.nextVer
 		sess := session(i, s.nextVer)
@@ -489,16 +618,7 @@ func (s *sys) Apply(op string) string {
 			break
 		}
 		s.phase = phSynced
-		// S1: immediately after a completed full sync the standby's table equals the snapshot the active served
-		var snap ha.SyncMessage
-		if err := json.Unmarshal(s.rt.lastBody, &snap); err != nil {
-			harnessError("cannot decode served snapshot: %v", err)
-		}
-		want, got := tableOf(snap.Sessions), tableOf(s.sStore.GetAllSessions())
-		if d := diffTables(want, got); d != "" {
-			s.v("S1-fullsync", s.s1Site(want, got), "after a completed full sync the standby's table differs from the snapshot the active served: %s", d)
-		}
-		obs = fmt.Sprintf("snapshot=%d", len(snap.Sessions))
+		obs = fmt.Sprintf("snapshot=%d", s.checkS1())
 	case op == "Attach":
 		s.conn++
 		st := &stream{gen: s.conn}
@@ -570,6 +690,27 @@ func (s *sys) Apply(op string) string {
 		synctest.Wait()
 		s.old, s.cur = s.cur, nil
 		s.phase = phIdle
+	case op == "+reconnect":
+		time.Sleep(loopReconnect)
+		synctest.Wait()
+		s.adopt()
+		if s.phase != phAttached {
+			s.v("S1-fullsync", "standbyLoop", "%v after the stream ended the standby's loop has not completed a full sync and re-opened the stream", loopReconnect)
+		}
+	case op == "+interval", op == "+interval(hold)":
+		s.ticks++
+		s.rt.holdNext = op == "+interval(hold)"
+		time.Sleep(loopFullSyncInterval + time.Second)
+		synctest.Wait()
+		s.rt.holdNext = false
+		s.adopt()
+		if s.rt.held != nil {
+			obs = "full-sync response held"
+		}
+	case op == "ReleaseFullSync":
+		close(s.rt.held)
+		synctest.Wait()
+		s.adopt()
 	case op == "EndOldHandler":
 		s.old.srvCancel()
 		synctest.Wait()
@@ -578,6 +719,9 @@ func (s *sys) Apply(op string) string {
 		panic("unknown op " + op)
 	}
 	synctest.Wait()
+	if s.c.loop {
+		s.adopt()
+	}
 	return obs
 }
 
@@ -757,7 +901,7 @@ func (s *sys) describe() string {
 		rec = append(rec, *r)
 	}
 	dump("R", rec)
-	fmt.Fprintf(&sb, "ph=%d pushed=%d nextVer=%d faults=%d overtaken=%d prev=%v attachAt=%d pend=[", s.phase, len(s.msgs), s.nextVer, s.faults, s.overtaken, s.prevPush != nil, s.attachAt)
+	fmt.Fprintf(&sb, "ph=%d pushed=%d nextVer=%d faults=%d overtaken=%d upserts=%d ticks=%d held=%v prev=%v attachAt=%d pend=[", s.phase, len(s.msgs), s.nextVer, s.faults, s.overtaken, s.upserts, s.ticks, s.rt.held != nil, s.prevPush != nil, s.attachAt)
 	for _, m := range s.pending {
 		fmt.Fprintf(&sb, "%d:%s:%s:%d,", m.n, m.typ, m.id, m.ver)
 	}
@@ -797,7 +941,7 @@ func (s *sys) Check() []explore.Viol {
 		harnessError("pendingChanges has %d entries, mirror %d", n, len(s.pending))
 	}
 	// S3: attached, nothing queued or undelivered (so no active change later than what was delivered) => tables equal
-	if s.phase == phAttached && len(s.pending) == 0 && len(s.undelivered()) == 0 {
+	if s.phase == phAttached && len(s.pending) == 0 && len(s.undelivered()) == 0 && s.rt.held == nil {
 		want, got := tableOf(s.aStore.GetAllSessions()), tableOf(s.sStore.GetAllSessions())
 		if d := diffTables(want, got); d != "" {
 			s.v("S3-quiescent-divergence", s.s3Site(want, got), "stream attached, nothing queued or in flight, but the standby's table differs from the active's: %s", d)
@@ -813,7 +957,11 @@ func (s *sys) Check() []explore.Viol {
 	if s.phase == phAttached && !s.standby.IsConnected() {
 		harnessError("model says attached but the standby reports IsConnected()=false")
 	}
-	for _, st := range []*stream{s.cur, s.old} {
+	if s.rt.held != nil {
+		close(s.rt.held)
+		synctest.Wait()
+	}
+	for _, st := range []*stream{s.cur, s.old, s.loopNew} {
 		if st != nil {
 			st.pw.Close()
 			st.srvCancel()
@@ -845,6 +993,34 @@ func classify(v *report.Violation) {
 	}
 }
 
+// Go 1.25.0 toolchain workaround (loop=true configuration only). Start() does
+// WaitGroup.Add inside the bubble, which makes the runtime allocate a
+// "bubble special" for the WaitGroup from a fixalloc WITHOUT taking
+// mheap_.speciallock (runtime/synctest.go getOrSetBubbleSpecial), while the
+// sweeper frees such specials under that lock. Concurrent bubbles therefore
+// corrupt the allocator and the process dies with "WaitGroup.Add called from
+// multiple synctest bubbles". So: Start() calls are serialised (startMu), the
+// background collector is switched off while this configuration runs, and
+// collections happen at points where no bubble is executing (gcGate).
+var (
+	startMu   sync.Mutex
+	gcGate    sync.RWMutex
+	loopExecs atomic.Int64
+)
+
+func gatedExec(t *testing.T) func(body func()) {
+	return func(body func()) {
+		gcGate.RLock()
+		synctest.Test(t, func(*testing.T) { body() })
+		gcGate.RUnlock()
+		if loopExecs.Add(1)%1500 == 0 {
+			gcGate.Lock()
+			runtime.GC()
+			gcGate.Unlock()
+		}
+	}
+}
+
 func models(t *testing.T, run *report.Run) []*explore.Model {
 	ids, depth, nd := 3, 6, 4
 	if run.Thorough() {
@@ -852,14 +1028,21 @@ func models(t *testing.T, run *report.Run) []*explore.Model {
 	}
 	var ms []*explore.Model
 	// the attached start state is there for depth, not breadth: one id fewer
-	for _, c := range []cfg{{ids: ids}, {ids: ids - 1, attached: true}} {
+	for _, c := range []cfg{{ids: ids}, {ids: ids - 1, attached: true}, {ids: 2, loop: true}} {
 		c := c
+		d := depth
+		if c.loop {
+			d-- // the real-loop configuration: one level shallower
+		}
 		ms = append(ms, &explore.Model{
-			Name: "ha.HASyncer-pair", Config: fmt.Sprintf("ids=%d attached=%v", c.ids, c.attached),
+			Name: "ha.HASyncer-pair", Config: fmt.Sprintf("ids=%d attached=%v loop=%v", c.ids, c.attached, c.loop),
 			New:   func() explore.System { return newSys(c) },
-			Depth: depth, NoDedupDepth: nd, Classify: classify, Budget: 10 * time.Minute,
+			Depth: d, NoDedupDepth: nd, Classify: classify, Budget: 10 * time.Minute,
 			Exec: func(body func()) { synctest.Test(t, func(*testing.T) { body() }) },
 		})
+		if c.loop {
+			ms[len(ms)-1].Exec = gatedExec(t)
+		}
 	}
 	return ms
 }
@@ -871,6 +1054,7 @@ func TestCheck(t *testing.T) {
 		"the session manager updates the active's store and then calls PushChange (one atomic step in the model)",
 		"standbyLoop and broadcastLoop are replaced by explicit single-step events calling the same functions; performFullSync, connectToStream (own goroutine, frames gated by the harness), handleGetSessions and handleSessionStream are the real code",
 		"at most one half-open old stream generation at a time",
+		"loop=true configuration: the standby's real standbyLoop runs on synctest's virtual clock (FullSyncInterval 60s; RequestTimeout 24h so that the HTTP client timeout, which also bounds the stream, stays outside the explored horizon); the active side is still event-driven",
 		"session tables are compared as JSON-canonical SessionState values",
 	}
 	ms := models(t, run)
@@ -879,6 +1063,12 @@ func TestCheck(t *testing.T) {
 	}
 	for _, m := range ms {
 		if run.WantPart(m.Name) {
+			if strings.Contains(m.Config, "loop=true") {
+				old := debug.SetGCPercent(-1) // see gatedExec
+				m.Run(run)
+				debug.SetGCPercent(old)
+				continue
+			}
 			m.Run(run)
 		}
 	}
@@ -900,7 +1090,7 @@ func replay(run *report.Run, ms []*explore.Model) int {
 	for _, m := range ms {
 		if strings.HasPrefix(v.Part, m.Name+"[") {
 			var c cfg
-			fmt.Sscanf(v.Config, "ids=%d attached=%t", &c.ids, &c.attached)
+			fmt.Sscanf(v.Config, "ids=%d attached=%t loop=%t", &c.ids, &c.attached, &c.loop)
 			m.New = func() explore.System { return newSys(c) }
 			vs, p := m.Replay(v.Trace)
 			if p != "" {
